@@ -181,7 +181,7 @@ std::unique_ptr<NodeResult> ArithmeticOperationNode::evaluate(PSC::Context &ctx)
 
         std::unique_ptr<PSC::Enum> resEnum = std::make_unique<PSC::Enum>(definition.name);
         resEnum->idx = res;
-        return std::make_unique<NodeResult>(std::move(resEnum), PSC::DataType::ENUM);
+        return std::make_unique<NodeResult>(std::move(resEnum), PSC::DataType(PSC::DataType::ENUM, &definition.name));
     }
 
     if ((leftRes->type != PSC::DataType::INTEGER && leftRes->type != PSC::DataType::REAL)
